@@ -6,6 +6,9 @@ is reported as a VIOLATION (smallest first).
 
 from __future__ import annotations
 
+import json
+import os
+
 from . import common
 
 
@@ -40,6 +43,17 @@ def attribute(prop: str, failures: list, total_failures: int, rep: common.Report
             ordered.append(c)
         else:
             rest.append(c)
+    if os.environ.get("VERIF_TRIAGE") and unlisted:
+        groups: dict = {}
+        for c in unlisted:
+            key = (c["mode"].split("[")[0], c["kind"], c["grammar"])
+            g = groups.setdefault(key, [0, c, set()])
+            g[0] += 1
+            g[2].add(c["mode"])
+        print(f"TRIAGE: {len(unlisted)} unlisted failing cases in {len(groups)} (mode, kind, grammar) groups; smallest grammars first")
+        for key in sorted(groups, key=lambda k: (len(k[2]), k))[: int(os.environ.get("VERIF_TRIAGE_N", "40"))]:
+            n, c, ms = groups[key]
+            print(f"  [{key[0]} {key[1]} x{n} modes={len(ms)}] {key[2]!r} input={c['input']!r} k={c.get('start_pos', 0)} expected={json.dumps(c.get('expected'))[:160]} got={json.dumps(c.get('got'))[:160]}")
     for c in ordered + rest:
         rep.violation(c)
     if total_failures > len(failures) and not unlisted:
